@@ -53,8 +53,10 @@ class Driver(BaseDriver):
                 "attempting to close transport and channel"
             )
 
-            self.transport.close()
-            self.channel.close()
+            try:
+                self.transport.close()
+            finally:
+                self.channel.close()
 
             raise ScrapliConnectionError(exc) from exc
 
@@ -138,9 +140,12 @@ class Driver(BaseDriver):
                 self.on_close(self)
         finally:
             # always release the transport and the channel log, even if the on_close callable
-            # raised (i.e. because the device is already gone or an operation timed out)
-            self.transport.close()
-            self.channel.close()
+            # raised (i.e. because the device is already gone or an operation timed out) -- and
+            # the channel log even if closing the transport itself raises
+            try:
+                self.transport.close()
+            finally:
+                self.channel.close()
 
         self._post_open_closing_log(closing=True)
 
